@@ -64,6 +64,10 @@ class Pkg:
                 continue
             self.files[str(f.relative_to(REPO))] = mod
             for n in ast.walk(mod):
+                if isinstance(n, ast.ImportFrom):
+                    for al in n.names:
+                        if al.name == "set_random_seed" and al.asname:
+                            SEED_CTX_NAMES.add(al.asname)
                 if isinstance(n, (ast.FunctionDef, ast.AsyncFunctionDef)):
                     self.defs.setdefault(n.name, []).append(n)
         self._draws: dict[str, bool] = {}
@@ -129,11 +133,14 @@ class Pkg:
         return any(self.func_draws(cn) for cn in self.callee_names(call) if cn in self.defs or self.class_inits(cn))
 
 
+SEED_CTX_NAMES = {"set_random_seed"}  # plus the names it is imported under (filled by Pkg)
+
+
 def _guard_with(node: ast.With, any_argument: bool = False) -> bool:
     """`with set_random_seed(seed)` / `(seed=seed)`; with any_argument: seeded by whatever the helper was handed"""
     for it in node.items:
         c = it.context_expr
-        if isinstance(c, ast.Call) and _attr_chain(c.func)[-1:] == ["set_random_seed"]:
+        if isinstance(c, ast.Call) and _attr_chain(c.func)[-1:] and _attr_chain(c.func)[-1] in SEED_CTX_NAMES:
             args = list(c.args) + [k.value for k in c.keywords]
             if any_argument and args and not all(isinstance(a, ast.Constant) and a.value is None for a in args):
                 return True
